@@ -11,3 +11,39 @@ SPECS = {
         ],
     },
 }
+
+# ---- wave 6: the SAME loop / cell helpers regenerated over R (loop plug-in harness/py2coq_loops.py, primitives Proofs/Tie_PyLoops.v), so
+# that the chain can be instantiated with the real-valued closed forms of C09 (Gen/GenC09Hem.v ...): Proofs/C01_ChainR.v proves the
+# generated create_q_vector equal to Model/ChainR.v's q_vectorR and states C01_hem_chain_rates about the generated definitions
+_HDR_R = ("From Coq Require Import ZArith Reals Bool List.\n"
+          "From RV Require Import Base.RB Proofs.Tie_PyLoops.\nImport ListNotations.\nOpen Scope R_scope.\n")
+_RRR = "R -> R -> R"
+SPECS["GenC01ChainR"] = {
+    "file": "rpylib/distribution/samplingfactory.py", "dom": "R", "ext": "py2coq_loops", "header": _HDR_R,
+    "funcs": [
+        {"file": "rpylib/grid/spatial.py", "py": "CTMCGrid.left_point", "coq": "left_point", "pyargs": ["coordinate"],
+         "args": [("axes0", "list R"), ("coordinate", "Z")], "ret": "R",
+         "lists": {"self.axes[0]": ("axes0", "R")}, "int_names": ["coordinate"]},
+        {"file": "rpylib/grid/spatial.py", "py": "CTMCGrid.right_point", "coq": "right_point", "pyargs": ["coordinate"],
+         "args": [("axes0", "list R"), ("coordinate", "Z")], "ret": "R",
+         "lists": {"self.axes[0]": ("axes0", "R")}, "int_names": ["coordinate"]},
+        {"file": "rpylib/grid/spatial.py", "py": "CTMCGrid.middle", "coq": "middle", "emitter": "py2coq_loops:registered",
+         "variant_of": "float", "ext": "py2coq_loops", "pyargs": ["xi", "xip"], "args": [("xi", "R"), ("xip", "R")], "ret": "R"},
+        {"py": "create_q_vector", "coq": "create_q_vector", "pyargs": ["levy_measure", "grid"],
+         "args": [("int_lm", _RRR), ("grid_middle", _RRR), ("axes0", "list R"), ("origin_coordinate", "Z")], "ret": "list R",
+         "attrs": {"levy_measure.integrate": "int_lm"}, "int_attrs": {"grid.origin_coordinate": "origin_coordinate"},
+         "calls": {"int_lm": "int_lm", "grid.middle": "grid_middle"},
+         "int_calls": {"grid.left_point": "left_point axes0", "grid.right_point": "right_point axes0"},
+         "lists": {"grid.axes[0]": ("axes0", "R")}},
+        # compute_intensity_of_jumps specialised to a 1-d model, as in specs/TIE.py (itertools.product / next / the loop over the remaining
+        # blocks unrolled at translation time by the plug-in's "checked" emitter), over R
+        {"py": "compute_intensity_of_jumps", "coq": "compute_intensity_of_jumps_1d", "pyargs": ["model", "grid"],
+         "emitter": "py2coq_loops:checked", "require_imports": {"product": "itertools"},
+         "args": [("mass", _RRR), ("grid_middle", _RRR), ("axes0", "list R"), ("origin_coordinate", "Z")], "ret": "R",
+         "static_tests": {"model.dimension_model() == 1": True},
+         "attrs": {"grid.origin": "(IZR 0)"}, "int_attrs": {"grid.origin_coordinate": "origin_coordinate"},
+         "calls": {"grid.middle": "grid_middle"}, "kw_calls": {"model.mass": ("mass", ["a", "b"])},
+         "int_calls": {"grid.left_point": "left_point axes0", "grid.right_point": "right_point axes0"},
+         "lists": {"grid.axes[0]": ("axes0", "R")}},
+    ],
+}
